@@ -1,6 +1,6 @@
 (* C05: the JavaScript header parser on the bytes of write_header reports the header the Python reader returns. *)
 From Coq Require Import ZArith NArith List Lia ZifyBool ZifyN ZifyNat Bool.
-Require Import ListN Result Bytes Utf8 Utf8S F32 Prog Codec ProgLemmas CodecRT C05_JsParser C05_Lemmas.
+Require Import ListN Result Bytes Utf8 Utf8S F32 Prog Codec ProgLemmas CodecRT C05_JsParser C05_Spec C05_Lemmas.
 Import ListNotations.
 Open Scope N_scope.
 
@@ -82,16 +82,18 @@ Lemma comps_RS comps es :
   Forall2 (RS component_schema) es (map js_comp_obj (map canon_comp comps)).
 Proof. induction 1 as [|c e' comps es Hc _ IH]; cbn [map]; constructor; [|exact IH]. now apply RS_component. Qed.
 
-Definition header_of (dims : Z * Z * Z) (comps : list wcomponent) : header :=
-  {| h_version := version_word;
+Definition header_of_v (v : N) (dims : Z * Z * Z) (comps : list wcomponent) : header :=
+  {| h_version := v;
      h_dims := (Z.to_N (fst (fst dims)), Z.to_N (snd (fst dims)), Z.to_N (snd dims));
      h_comps := map canon_comp comps |}.
+Definition header_of := header_of_v version_word.
 
 (* parser.ts:46-61,184,187 : headerParser.parse(buffer) *)
-Theorem js_header_obj_eq dims comps h r : write_header dims comps = Ok h ->
-  parse header_schema (h ++ r) = Some (js_header_obj (header_of dims comps) (lenN h)).
+Theorem js_header_obj_eq_v v dims comps h r : (v < 4294967296)%N -> write_header dims comps = Ok h ->
+  parse header_schema (with_version v h ++ r) = Some (js_header_obj (header_of_v v dims comps) (lenN h)) /\
+  lenN (with_version v h) = lenN h.
 Proof.
-  unfold write_header. intros H.
+  unfold write_header. intros Hv H.
   change ([Ok (enc_u32 version_word); write_dims dims; pack_u16s [Z.of_N (lenN comps)]] ++ ?x)
     with (Ok (enc_u32 version_word) :: write_dims dims :: pack_u16s [Z.of_N (lenN comps)] :: x) in H.
   apply concat_r_cons in H. destruct H as [e1 [r1 [H1 [H ->]]]]. injection H1 as <-.
@@ -103,17 +105,33 @@ Proof.
   apply pack_u16s_ok in H2. destruct H2 as [HF2 ->].
   inversion HF2 as [|? ? Hw HF2a]; subst. inversion HF2a as [|? ? Hh HF2b]; subst. inversion HF2b as [|? ? Hd _]; subst.
   apply pack_u16s_ok in H3. destruct H3 as [HF3 ->]. inversion HF3 as [|? ? Hn _]; subst.
-  rewrite ZN_lenN in *.
-  unfold parse, js_little, header_schema. cbn [flat_map]. rewrite ?ZN_lenN. rewrite !app_nil_r.
-  set (hbytes := enc_u32 version_word ++ (enc_u16 (Z.to_N w) ++ enc_u16 (Z.to_N hh) ++ enc_u16 (Z.to_N d)) ++
+  unfold with_version. rewrite drop4_enc_u32.
+  split; [|rewrite !lenN_app, !enc_u32_len; reflexivity].
+  unfold parse, js_little, header_schema. cbn [flat_map]. rewrite ?ZN_lenN in *. rewrite !app_nil_r.
+  set (hbytes := enc_u32 v ++ (enc_u16 (Z.to_N w) ++ enc_u16 (Z.to_N hh) ++ enc_u16 (Z.to_N d)) ++
                  enc_u16 (lenN comps) ++ concat es).
-  change (hbytes ++ r) with ([] ++ hbytes ++ r). change 0 with (lenN (@nil N)).
+  change (hbytes ++ r) with ([] ++ hbytes ++ r). change 0%N with (lenN (@nil N)).
   unfold hbytes. rewrite <- !app_assoc.
-  rewrite run_f32 by exact version_word_lt.
+  rewrite run_f32 by exact Hv.
   rewrite run_u16 by exact Hw. rewrite run_u16 by exact Hh. rewrite run_u16 by exact Hd.
   rewrite run_u16 by exact Hn.
   rewrite (run_arr _ _ _ _ _ _ _ es _ _ (comps_RS _ _ HF)); [|rewrite !lenN_map; reflexivity].
   cbn [run app]. rewrite <- !app_assoc.
-  unfold js_header_obj, header_of. cbn [h_dims h_version h_comps fst snd app].
-  rewrite !lenN_map. cbn [apply_fmt]. rewrite !map_map. reflexivity.
+  unfold js_header_obj, header_of_v. cbn [h_dims h_version h_comps fst snd app].
+  rewrite !lenN_map. cbn [apply_fmt]. rewrite !map_map.
+  rewrite !lenN_app, !enc_u32_len, !enc_u16_len. reflexivity.
+Qed.
+Lemma with_version_same dims comps h : write_header dims comps = Ok h -> with_version version_word h = h.
+Proof.
+  unfold write_header. intros H.
+  change ([Ok (enc_u32 version_word); write_dims dims; pack_u16s [Z.of_N (lenN comps)]] ++ ?x)
+    with (Ok (enc_u32 version_word) :: write_dims dims :: pack_u16s [Z.of_N (lenN comps)] :: x) in H.
+  apply concat_r_cons in H. destruct H as [e1 [r1 [H1 [H ->]]]]. injection H1 as <-.
+  unfold with_version. now rewrite drop4_enc_u32.
+Qed.
+Theorem js_header_obj_eq dims comps h r : write_header dims comps = Ok h ->
+  parse header_schema (h ++ r) = Some (js_header_obj (header_of dims comps) (lenN h)).
+Proof.
+  intros H. rewrite <- (with_version_same _ _ _ H) at 1.
+  exact (proj1 (js_header_obj_eq_v version_word dims comps h r version_word_lt H)).
 Qed.
